@@ -12,7 +12,7 @@ CONSTANTS
   WAYSEQS = {0, 1}
   HSSIGS = {"own", "bad"}
   HSRECS = {"none", "own2", "own9", "claimed1"}
-  MSGSEL = {"req", "junk", "pong", "nodes2", "intok", "intforeign", "intnone"}
+  MSGSEL = {"req", "junk", "pong", "nodes2", "intok", "intforeign", "intlate", "intnone"}
   DEPTH = 40
 INVARIANTS Emit
 VIEW View
